@@ -112,6 +112,76 @@ def soup(rng, pieces=None):
     return ''.join(soup_piece(rng, open_tags) for _ in range(n))
 
 
+ATTRN_ODD = ['a}b', '}', '{', 'x:y:z', ':', 'a{', '{ns}local', 'xmlns', 'xmlns:p', '{{x}y', 'a:b', '}{', 'x}', 'xml:lang', 'A:B']
+UNTERMINATED = ['<!--x', '<!-- a -', '<a href="v', "<a href='v w", '<a href=v', '<a b', '<a', '<', '</a', '</', '<?php echo', '<?', '<![CDATA[x', '<![CDATA[x]]',
+                '<!DOCTYPE html', '<!', '<![if', '&#12', '&#x4', '&amp', '&', '<script>x</scr', '<textarea>a</textarea', '<p/', '<br /', '<a b="1"/',
+                '<o{p}q {x="', '<a a}b=']
+TERMINATORS = ['>', '">', "'>", '-->', '?>', ']]>', ';', '/>', ' >', 'ipt>', '']
+
+
+def nested_selfclosing(rng):
+    """self-closing non-void elements inside same-named ancestors: `<p><div><p/>x</div>y</p>` — handle_startendtag
+    pushes the tag and pops to the innermost element of that name"""
+    out = []
+    stack = []
+    for _ in range(rng.choice([2, 3, 4, 6, 9])):
+        r = rng.random()
+        t = rng.choice(stack) if stack and rng.random() < 0.7 else rng.choice(['p', 'div', 'a', 'b', 'li', 'x-y', 'a:b', 'o{p}q', 'td'])
+        if rng.random() < 0.15:
+            t = t.upper()
+        at = ''.join(' ' + rand_attr(rng) for _ in range(rng.choice([0, 0, 1])))
+        if r < 0.4:
+            out.append('<%s%s>' % (t, at))
+            stack.append(t.lower())
+        elif r < 0.7:
+            out.append('<%s%s%s/>' % (t, at, rng.choice(['', ' '])))
+        elif r < 0.9 and stack:
+            out.append('</%s>' % stack.pop(rng.randrange(len(stack))))
+        else:
+            out.append(rng.choice(['x', ' ', 'text', '&amp;']))
+    return ''.join(out)
+
+
+def odd_attr_names(rng):
+    """attribute names holding braces and colons (QName splits at them)"""
+    out = []
+    for _ in range(rng.choice([1, 2, 3])):
+        attrs = []
+        for _ in range(rng.choice([1, 2, 3])):
+            n = rng.choice(ATTRN_ODD)
+            r = rng.random()
+            attrs.append(n if r < 0.3 else '%s="%s"' % (n, rng.choice(['', 'v', '{u}w', '&amp;', 'a}b'])) if r < 0.8 else "%s=%s" % (n, rng.choice(['v', '{', '}'])))
+        out.append('<%s %s%s' % (rng.choice(['a', 'p', 'br', 'img', 'a:b']), ' '.join(attrs), rng.choice(['>', '/>', ' >'])))
+        out.append(rng.choice(['', 'x', '</a>']))
+    return ''.join(out)
+
+
+def boundary_html(rng, boundary=None):
+    """a construct that is still open where a read() ends: `boundary` characters of tidy filler, then an unterminated
+    construct that starts up to its own length before the boundary, then (perhaps) its end and more markup"""
+    c = rng.choice(UNTERMINATED)
+    if boundary is None:
+        return soup(rng, 2) + c + rng.choice(['', rng.choice(TERMINATORS) + soup(rng, 2)])
+    k = rng.randrange(0, len(c) + 2)
+    filler = []
+    n = 0
+    while n < boundary:
+        piece = rng.choice(['<p>text</p>', 'x' * 50, '<b>b</b> ', 'caf&eacute; ', '<br>', '\n'])
+        filler.append(piece)
+        n += len(piece)
+    head = ''.join(filler)[:max(0, boundary - k)]
+    return head + c + rng.choice(['', rng.choice(TERMINATORS) + soup(rng, 3)])
+
+
+def pressure_html(rng):
+    r = rng.random()
+    if r < 0.5:
+        return nested_selfclosing(rng)
+    if r < 0.7:
+        return odd_attr_names(rng)
+    return boundary_html(rng)
+
+
 def valid_html(rng, depth=0, budget=None):
     """a tidy HTML fragment: every non-void element closed, attributes quoted"""
     if budget is None:
